@@ -1,5 +1,5 @@
 // C04: SignalEvent over two loops on two threads, driven in lock-step (engine H, fork per evaluation).
-// usage: harness <engine> <depth> <cfg 0..2> <lane A|B|C|Ci>
+// usage: harness <engine> <depth> <cfg 0..2> <lane A|B|C|Ci|D>
 //   cfg  = pre-subscription dispositions of (SIGUSR1, SIGUSR2): 0 (SIG_IGN, SIG_DFL)  1 (plain handler, SA_SIGINFO handler)  2 (SIG_DFL, plain handler);
 //          every signal has its OWN handler function, sa_mask and sa_flags, so a save/restore/invoke through the other signal's slot is visible.
 //   lane = A: enable/disable/destroy on e0..e4 + single deliveries raised on the controller thread
@@ -7,6 +7,8 @@
 //          C: re-subscription lane: enable/disable on e0,e1,e2 + enable e5 (e5 = {SIGKILL}: sigaction() fails, enable() must report false and subscribe nothing)
 //             + single deliveries; the state key additionally holds "loop l dropped its last subscriber before" / "signal s was restored before" (saturating at 1)
 //             and "deferred tasks are still queued on loop l", so tear-down -> (pass | no pass) -> subscribe again -> deliveries is explored
+//          D: initialise-again lane: e0 {USR1}, e3 {USR2}, e7 (created without initialize()): enable/disable on all three, destroy and addsig (= initialize again, adding the
+//             other signal through the accumulating overloads) on e0 and e7, on enabled or disabled events, incl. enable() before any initialize(); + single deliveries
 //          Ci: as C, but every enable/disable is issued from a runNext task inside a kOnce pass of its loop (ordinary in-loop callback)
 // DESIGN 1.7 reading: subscription changes are made between deliveries, never inside a signal callback (apart from the one-shot's own self-disable).
 #include "hist/hist.h"
@@ -14,6 +16,7 @@
 #include <tbox/event/signal_event.h>
 #include <tbox/event/fd_event.h>
 #include <tbox/event/common_loop.h>
+#include <tbox/event/signal_event_impl.h>
 #include <tbox/event/common_loop_signal.cpp>     // as source: gives access to the file-local _signal_ctxs_
 #include <condition_variable>
 #include <sstream>
@@ -25,21 +28,32 @@
 #endif
 using namespace tbox::event;
 
-enum K { ENABLE, DISABLE, DESTROY, RAISE };
+enum K { ENABLE, DISABLE, DESTROY, RAISE, ADDSIG };
 struct Op { int k, a; };
-static const char *kN[] = {"enable", "disable", "destroy", "raise"};
+static const char *kN[] = {"enable", "disable", "destroy", "raise", "addsig"};
 static const int NS = 4; static const int SIGS[NS] = {SIGUSR1, SIGUSR2, SIGKILL, SIGSTOP};
-static const int NE = 7;
+static const int NE = 8;
 // event -> (loop, signals bitmask, oneshot); e4 is a one-shot event on a two-signal set; e5 subscribes SIGKILL only (its enable() must fail);
 // e6 subscribes {SIGUSR1, SIGSTOP} (the uncatchable one comes second in the set; enable() must fail as a whole) and is only operated when the switch C04_MIXED_UNCATCHABLE_SET=1 is set (default off, see below)
-static const int EV_LOOP[NE] = {0, 0, 1, 1, 0, 0, 0}; static const int EV_SIGS[NE] = {1, 3, 1, 2, 3, 4, 9}; static const bool EV_ONESHOT[NE] = {false, false, true, false, true, false, false};
-static const bool EV_FAILS[NE] = {false, false, false, false, false, true, true};     // POSIX: sigaction(SIGKILL | SIGSTOP) = EINVAL
+// e7 (loop 1) is created WITHOUT initialize(); lane D initialises it later with addsig(e7), possibly after enable(e7)
+static const int EV_LOOP[NE] = {0, 0, 1, 1, 0, 0, 0, 1}; static const int EV_SIGS[NE] = {1, 3, 1, 2, 3, 4, 9, 0}; static const bool EV_ONESHOT[NE] = {false, false, true, false, true, false, false, false};
+static bool set_fails(int mask) { return (mask & 12) != 0; }     // POSIX: sigaction(SIGKILL | SIGSTOP) = EINVAL, so enable() of a set containing one must fail as a whole
+// addsig(e) = "initialize again, adding one signal": the (int, Mode) and (initializer_list, Mode) overloads ACCUMULATE (as the library does; the std::set overload assigns and is
+// used at construction only). The added signal is the first of USR1, USR2 not yet in the event's set (USR2 again when both are there). Reading used by the model: an added signal
+// takes effect at the next enable() that returns true (before that the event keeps the subscriptions of its last enable()); from then on the enabled event must get its callbacks
+// for the whole accumulated set and disable()/destroy must leave every disposition as it was before the first subscription.
+static int add_bit(int want) { return !(want & 1) ? 1 : 2; }
 // which initialize() overload builds the event: 0 (int, Mode)  1 (initializer_list, Mode)  2 (std::set, Mode)
-static const int EV_INIT[NE] = {0, 1, 0, 0, 2, 0, 2};
+static const int EV_INIT[NE] = {0, 1, 0, 0, 2, 0, 2, -1};     // -1: not initialised at construction
 // (was a defect switch; the defect is repaired, so this is on by default; C04_MIXED_UNCATCHABLE_SET=0 turns it off) lane C also offers enable(e6)/destroy(e6).
 // Before the repair enable(e6) returned false but left SIGUSR1 subscribed for an event that reports isEnabled()==false; neither disable() nor the
 // destructor unsubscribes it, so the disposition of SIGUSR1 is never restored and a delivery after destroy(e6) calls into the freed event.
 static bool g_replay_keep_going = false;      // replay mode only (C04_REPLAY_KEEP_GOING=1): report a violation and carry on with the history
+// DEFECT SWITCH (default off so that the tree stays quiet): with C04_ADD_SIGNAL_THEN_DISABLE=1 lane D also offers disable(e)/destroy(e) while the event is enabled and holds an
+// added signal that no enable() has subscribed yet (enable; addsig; disable). On the current code disable() walks the whole accumulated set and unsubscribeSignal() of the
+// never-subscribed signal "restores" a zero-filled old handler, i.e. installs SIG_DFL over the application's disposition of a signal the event never subscribed.
+// With the switch off the closed system is: who adds a signal to an enabled event calls enable() again before disabling or destroying it.
+static bool add_signal_then_disable() { const char *e = getenv("C04_ADD_SIGNAL_THEN_DISABLE"); return e && *e == '1'; }
 static bool mixed_uncatchable_set() { const char *e = getenv("C04_MIXED_UNCATCHABLE_SET"); return !(e && *e == '0'); }   // on by default since the repair (fix commit in /repo); =0 switches it off
 
 // delivery scripts: all deliveries of a script happen before the loops get one pass each
@@ -64,18 +78,21 @@ template <int I> static void sentinel_info(int signo, siginfo_t *si, void *uc) {
 
 // reference model: pure function of the history (also used by the menu)
 struct Model {
-  bool alive[NE], en[NE]; int gen[2], cyc[NS];      // gen[l]: loop l has dropped its last subscriber at least once; cyc[s]: signal s has been installed and restored at least once
-  Model() { for (int e = 0; e < NE; e++) { alive[e] = true; en[e] = false; } gen[0] = gen[1] = 0; for (int s = 0; s < NS; s++) cyc[s] = 0; }
+  bool alive[NE], en[NE]; int want[NE], act[NE]; int gen[2], cyc[NS];      // want: set accumulated by initialize() calls; act: set in force = want at the last successful enable()
+       // gen[l]: loop l has dropped its last subscriber at least once; cyc[s]: signal s has been installed and restored at least once
+  Model() { for (int e = 0; e < NE; e++) { alive[e] = true; en[e] = false; want[e] = act[e] = EV_SIGS[e]; } gen[0] = gen[1] = 0; for (int s = 0; s < NS; s++) cyc[s] = 0; }
   bool live(int e) const { return alive[e] && en[e]; }
-  bool subS(int s) const { for (int e = 0; e < NE; e++) if (live(e) && (EV_SIGS[e] & (1 << s))) return true; return false; }
+  bool subS(int s) const { for (int e = 0; e < NE; e++) if (live(e) && (act[e] & (1 << s))) return true; return false; }
+  bool pending_add(int e) const { return live(e) && act[e] != want[e]; }
   bool subL(int l) const { for (int e = 0; e < NE; e++) if (live(e) && EV_LOOP[e] == l) return true; return false; }
   void apply(const Op &o) {
     bool bl[2] = {subL(0), subL(1)}, bs[NS]; for (int s = 0; s < NS; s++) bs[s] = subS(s);
     switch (o.k) {
-      case ENABLE: if (alive[o.a] && !EV_FAILS[o.a]) en[o.a] = true; break;
+      case ENABLE: if (alive[o.a] && !set_fails(want[o.a])) { en[o.a] = true; act[o.a] = want[o.a]; } break;
+      case ADDSIG: if (alive[o.a]) want[o.a] |= add_bit(want[o.a]); break;
       case DISABLE: en[o.a] = false; break;
       case DESTROY: alive[o.a] = false; en[o.a] = false; break;
-      case RAISE: { int mask = 0; for (int s : SCRIPTS[o.a].sigs) mask |= 1 << s; for (int e = 0; e < NE; e++) if (live(e) && EV_ONESHOT[e] && (EV_SIGS[e] & mask)) en[e] = false; } break;
+      case RAISE: { int mask = 0; for (int s : SCRIPTS[o.a].sigs) mask |= 1 << s; for (int e = 0; e < NE; e++) if (live(e) && EV_ONESHOT[e] && (act[e] & mask)) en[e] = false; } break;
     }
     for (int l = 0; l < 2; l++) if (bl[l] && !subL(l)) gen[l] = 1;
     for (int s = 0; s < NS; s++) if (bs[s] && !subS(s)) cyc[s] = 1;
@@ -105,12 +122,13 @@ static bool same_disposition(const struct sigaction &a, const struct sigaction &
 int main(int argc, char **argv) {
   std::string eng = argc > 1 ? argv[1] : "epoll"; size_t depth = argc > 2 ? atoi(argv[2]) : 5; int cfg = argc > 3 ? atoi(argv[3]) : 1; std::string lane = argc > 4 ? argv[4] : "A";
   if (cfg < 0 || cfg > 2) cfg = 1;
-  const bool laneB = lane[0] == 'B', laneC = lane[0] == 'C', inloop = lane == "Ci";
+  const bool laneB = lane[0] == 'B', laneC = lane[0] == 'C', laneD = lane[0] == 'D', inloop = lane == "Ci";
   hx::Explorer<Op> ex; ex.name = eng + "-cfg" + std::to_string(cfg) + "-lane" + lane; ex.deadline_s = hx::deadline_from_env(600);
   ex.fork_workers = (int)hx::env_int("VERIF_WORKERS", 4); ex.check_replay_determinism = true;
   ex.show = [](const Op &o) { char b[48]; if (o.k == RAISE) snprintf(b, 48, "raise(%s)", SCRIPTS[o.a].name); else snprintf(b, 48, "%s(e%d)", kN[o.k], o.a); return std::string(b); };
   ex.menu = [&](const std::vector<Op> &h) { std::vector<Op> m; Model md; for (auto &o : h) md.apply(o);
-    if (laneC) { for (int e = 0; e < 3; e++) { m.push_back({ENABLE, e}); m.push_back({DISABLE, e}); } m.push_back({ENABLE, 5}); if (mixed_uncatchable_set()) { m.push_back({ENABLE, 6}); m.push_back({DESTROY, 6}); } }
+    if (laneD) { const int evs[3] = {0, 3, 7}; for (int e : evs) { m.push_back({ENABLE, e}); if (add_signal_then_disable() || !md.pending_add(e)) { m.push_back({DISABLE, e}); if (e != 3) m.push_back({DESTROY, e}); } if (e != 3) m.push_back({ADDSIG, e}); } }
+    else if (laneC) { for (int e = 0; e < 3; e++) { m.push_back({ENABLE, e}); m.push_back({DISABLE, e}); } m.push_back({ENABLE, 5}); if (mixed_uncatchable_set()) { m.push_back({ENABLE, 6}); m.push_back({DESTROY, 6}); } }
     else if (laneB) { for (int e = 0; e < 5; e++) { m.push_back({ENABLE, e}); m.push_back({DISABLE, e}); } }
     else { for (int e = 0; e < 5; e++) { m.push_back({ENABLE, e}); m.push_back({DISABLE, e}); m.push_back({DESTROY, e}); } }
     for (int i = laneB ? 2 : 0; i < (laneB ? (int)SCRIPTS.size() : 2); i++) {
@@ -127,17 +145,18 @@ int main(int argc, char **argv) {
         case K_INFO: sa.sa_sigaction = i == 0 ? sentinel_info<0> : sentinel_info<1>; sa.sa_flags |= SA_SIGINFO; break; }
       sigaction(SIGS[i], &sa, nullptr); sigaction(SIGS[i], nullptr, &pre[i]); }
     Worker w[2]; w[0].start(eng); w[1].start(eng); w[0].exec([] {}); w[1].exec([] {});
-    SignalEvent *ev[NE]; Model md; bool snap[NE]; int calls[NE][NS]; std::string cbviol; std::mutex cbm;
-    for (int e = 0; e < NE; e++) { snap[e] = false; for (int s = 0; s < NS; s++) calls[e][s] = 0; Worker &wk = w[EV_LOOP[e]];
+    SignalEvent *ev[NE]; Model md; bool snap[NE]; int snapAct[NE]; int calls[NE][NS]; std::string cbviol; std::mutex cbm;
+    for (int e = 0; e < NE; e++) { snap[e] = false; snapAct[e] = 0; for (int s = 0; s < NS; s++) calls[e][s] = 0; Worker &wk = w[EV_LOOP[e]];
       wk.exec([&, e] { ev[e] = wk.loop->newSignalEvent("e"); Event::Mode mode = EV_ONESHOT[e] ? Event::Mode::kOneshot : Event::Mode::kPersist;
-        if (EV_INIT[e] == 0) { int one = -1; for (int i = 0; i < NS; i++) if (EV_SIGS[e] == (1 << i)) one = SIGS[i]; ev[e]->initialize(one, mode); }
+        if (EV_INIT[e] < 0) { }
+        else if (EV_INIT[e] == 0) { int one = -1; for (int i = 0; i < NS; i++) if (EV_SIGS[e] == (1 << i)) one = SIGS[i]; ev[e]->initialize(one, mode); }
         else if (EV_INIT[e] == 1) ev[e]->initialize({SIGUSR1, SIGUSR2}, mode);
         else { std::set<int> ss; for (int i = 0; i < NS; i++) if (EV_SIGS[e] & (1 << i)) ss.insert(SIGS[i]); ev[e]->initialize(ss, mode); }
         ev[e]->setCallback([&, e](int signo) { std::lock_guard<std::mutex> g(cbm);
           if (std::this_thread::get_id() != w[EV_LOOP[e]].tid) cbviol = "callback-on-wrong-thread e" + std::to_string(e);
           if (!snap[e]) cbviol = "callback-on-disabled-or-destroyed-event e" + std::to_string(e);      // snap = alive && enabled when the deliveries were made
           int si = -1; for (int i = 0; i < NS; i++) if (signo == SIGS[i]) si = i;
-          if (si < 0 || !(EV_SIGS[e] & (1 << si))) { cbviol = "callback-with-unsubscribed-signal e" + std::to_string(e); return; }
+          if (si < 0 || !(snapAct[e] & (1 << si))) { cbviol = "callback-with-unsubscribed-signal e" + std::to_string(e); return; }
           calls[e][si]++;
           if (EV_ONESHOT[e] && ev[e]->isEnabled()) cbviol = "oneshot-still-enabled-in-callback"; }); }); }
     auto issue = [&](int e, std::function<void()> f) {      // run a subscription change on the event's loop thread: directly, or from a runNext task inside a kOnce pass
@@ -146,13 +165,16 @@ int main(int argc, char **argv) {
     for (auto &o : h) { if (!viol.empty()) { if (!g_replay_keep_going) break; printf("@INFO   (replay continues past: %s)\n", viol.c_str()); fflush(stdout); viol.clear(); cbviol.clear(); }
       switch (o.k) {
         case ENABLE: if (md.alive[o.a]) { bool r = true; issue(o.a, [&] { r = ev[o.a]->enable(); });
-            if (!EV_FAILS[o.a] && !r) viol = "enable-returned-false"; if (EV_FAILS[o.a] && r) viol = "enable-of-uncatchable-signal-returned-true"; } break;
+            const bool f = set_fails(md.want[o.a]); if (!f && !r) viol = "enable-returned-false"; if (f && r) viol = "enable-of-uncatchable-signal-returned-true"; } break;
+        case ADDSIG: if (md.alive[o.a]) { bool r = true; const int bit = add_bit(md.want[o.a]), signo = SIGS[bit == 1 ? 0 : 1]; const bool list = o.a == 7 && md.want[o.a] != 0;
+            issue(o.a, [&] { std::initializer_list<int> il = {signo}; r = list ? ev[o.a]->initialize(il, Event::Mode::kPersist) : ev[o.a]->initialize(signo, Event::Mode::kPersist); });
+            if (!r) viol = "initialize-returned-false"; } break;
         case DISABLE: if (md.alive[o.a]) issue(o.a, [&] { ev[o.a]->disable(); }); break;
         case DESTROY: if (md.alive[o.a]) issue(o.a, [&] { delete ev[o.a]; ev[o.a] = nullptr; }); break;
         case RAISE: {
           const Script &sc = SCRIPTS[o.a]; int nd[NS] = {0, 0, 0, 0}; for (int s : sc.sigs) nd[s]++; const int total = (int)sc.sigs.size();
           bool sub[2] = {md.subS(0), md.subS(1)};
-          for (int e = 0; e < NE; e++) { snap[e] = md.live(e); for (int s = 0; s < NS; s++) calls[e][s] = 0; }
+          for (int e = 0; e < NE; e++) { snap[e] = md.live(e); snapAct[e] = md.act[e]; for (int s = 0; s < NS; s++) calls[e][s] = 0; }
           for (int i = 0; i < 2; i++) g_calls[i] = g_bad[i] = 0;
           for (int s : sc.sigs) { if (sc.where < 0) raise(SIGS[s]);            // delivered to this (controller) thread before raise() returns
             else w[sc.where].exec([&] { raise(SIGS[s]); }); }                 // delivered to the loop's own thread (must not be left blocked there)
@@ -160,9 +182,9 @@ int main(int argc, char **argv) {
           std::string tail = total == 1 ? "" : "-after-" + std::to_string(total) + "-deliveries-before-one-pass";
           for (int e = 0; e < NE && viol.empty(); e++) {
             if (!snap[e]) { if (calls[e][0] + calls[e][1] + calls[e][2] + calls[e][3]) viol = "non-subscriber-got-a-callback e" + std::to_string(e); continue; }
-            if (EV_ONESHOT[e]) { int want = 0, got = 0; for (int s = 0; s < NS; s++) if (EV_SIGS[e] & (1 << s)) { if (nd[s]) want = 1; got += calls[e][s]; if (calls[e][s] && !nd[s]) viol = "callback-for-a-signal-that-was-not-delivered e" + std::to_string(e); }
+            if (EV_ONESHOT[e]) { int want = 0, got = 0; for (int s = 0; s < NS; s++) if (snapAct[e] & (1 << s)) { if (nd[s]) want = 1; got += calls[e][s]; if (calls[e][s] && !nd[s]) viol = "callback-for-a-signal-that-was-not-delivered e" + std::to_string(e); }
               if (viol.empty() && got != want) viol = (got > 1 ? "oneshot-fired-" + std::to_string(got) + "-times" : "enabled-subscriber-got-" + std::to_string(got) + "-callbacks") + tail + " e" + std::to_string(e); }
-            else for (int s = 0; s < NS && viol.empty(); s++) if (EV_SIGS[e] & (1 << s)) { if (calls[e][s] != nd[s]) viol = (nd[s] == 0 ? std::string("callback-for-a-signal-that-was-not-delivered") : "enabled-subscriber-got-" + std::to_string(calls[e][s]) + "-callbacks" + (nd[s] == 1 ? "" : "-for-" + std::to_string(nd[s]) + "-deliveries")) + " e" + std::to_string(e) + " sig" + std::to_string(s); } }
+            else for (int s = 0; s < NS && viol.empty(); s++) if (snapAct[e] & (1 << s)) { if (calls[e][s] != nd[s]) viol = (nd[s] == 0 ? std::string("callback-for-a-signal-that-was-not-delivered") : "enabled-subscriber-got-" + std::to_string(calls[e][s]) + "-callbacks" + (nd[s] == 1 ? "" : "-for-" + std::to_string(nd[s]) + "-deliveries")) + " e" + std::to_string(e) + " sig" + std::to_string(s); } }
           for (int i = 0; i < 2 && viol.empty(); i++) if (CFG[cfg][i] == K_PLAIN || CFG[cfg][i] == K_INFO) {
             if (g_calls[i] != nd[i]) viol = (nd[i] == 0 ? std::string("handler-of-another-signal-called-") : std::string(sub[i] ? "previously-installed-handler-called-" : "restored-handler-called-")) + std::to_string((int)g_calls[i]) + "-times" + (nd[i] > 1 ? "-for-" + std::to_string(nd[i]) + "-deliveries" : "") + " sig" + std::to_string(i);
             else if (g_bad[i]) viol = "previously-installed-handler-got-wrong-arguments sig" + std::to_string(i); }
@@ -175,12 +197,15 @@ int main(int argc, char **argv) {
     }
     // canonical state: model (incl. saturating teardown / restore generation counters, so that re-subscription after a teardown is explored) + the implementation's bookkeeping
     std::string c; for (int e = 0; e < NE; e++) { c += md.alive[e] ? (md.en[e] ? 'E' : 'd') : 'x'; }
+    c += "|w"; for (int e = 0; e < NE; e++) if (md.want[e] != EV_SIGS[e] || md.act[e] != EV_SIGS[e]) c += std::to_string(e) + ":" + std::to_string(md.want[e]) + "/" + std::to_string(md.act[e]) + ",";      // accumulated / in-force sets where they differ from the construction-time set
+    c += "|s"; for (int e = 0; e < NE; e++) if (md.alive[e]) { auto *im = static_cast<SignalEventImpl *>(ev[e]); int m = 0; for (int sg : im->sigset_) for (int i = 0; i < NS; i++) if (sg == SIGS[i]) m |= 1 << i; c += std::to_string(m) + (im->is_inited_ ? "i" : "u"); }
     if (laneC) c += "|g" + std::to_string(md.gen[0]) + std::to_string(md.gen[1]) + "c" + std::to_string(md.cyc[0]) + std::to_string(md.cyc[1]);
     for (int l = 0; l < 2; l++) { auto *cl = static_cast<CommonLoop *>(w[l].loop); c += "|L" + std::to_string(l) + ":"; for (auto &kv : cl->all_signals_subscribers_) c += std::to_string(kv.first) + "x" + std::to_string(kv.second.size()) + ",";
       c += (cl->signal_read_fd_ >= 0 ? "P" : "-"); c += cl->sp_signal_read_event_ ? (cl->sp_signal_read_event_->isEnabled() ? "R" : "r") : "-";
       if (laneC) c += (cl->run_next_func_queue_.size() + cl->run_in_loop_func_queue_.size()) ? "q+" : "q0"; }      // deferred tasks (the postponed delete of the pipe reader) still queued; saturating, the queue length itself is unbounded
     c += "|ctx:"; for (auto &kv : _signal_ctxs_) c += std::to_string(kv.first) + "x" + std::to_string(kv.second.write_fds.size()) + ",";
-    for (int e = 0; e < NE; e++) if (md.alive[e]) w[EV_LOOP[e]].exec([&] { delete ev[e]; });
+    for (int e = 0; e < NE; e++) if (md.alive[e]) w[EV_LOOP[e]].exec([&] { if (md.pending_add(e) && !add_signal_then_disable()) ev[e]->enable();      // closed system with the switch off: enable() again before the event goes away
+        delete ev[e]; });
     // every subscriber is destroyed now: both dispositions must be the pre-subscription ones
     for (int si = 0; si < 2 && viol.empty(); si++) { struct sigaction cur; sigaction(SIGS[si], nullptr, &cur); if (!same_disposition(cur, pre[si])) viol = std::string("disposition-not-restored-after-destroying-every-event ") + (si ? "USR2" : "USR1"); }
     w[0].stop(); w[1].stop();
@@ -188,7 +213,7 @@ int main(int argc, char **argv) {
   if (argc > 5) { g_replay_keep_going = hx::env_int("C04_REPLAY_KEEP_GOING", 0) == 1;
          // replay one history given as text, e.g. "enable(e0) disable(e0) enable(e0) raise(USR1)"; prints the canonical state and the violation (if any)
     std::vector<Op> h; std::string t; std::istringstream is(argv[5]);
-    while (is >> t) { bool ok = false; for (int k = 0; k < 3 && !ok; k++) for (int e = 0; e < NE && !ok; e++) if (t == ex.show({k, e})) { h.push_back({k, e}); ok = true; }
+    while (is >> t) { bool ok = false; for (int k = 0; k < 5 && !ok; k++) if (k != RAISE) for (int e = 0; e < NE && !ok; e++) if (t == ex.show({k, e})) { h.push_back({k, e}); ok = true; }
       for (int i = 0; i < (int)SCRIPTS.size() && !ok; i++) if (t == ex.show({RAISE, i})) { h.push_back({RAISE, i}); ok = true; }
       if (!ok) { printf("@INFO cannot parse op '%s'\n", t.c_str()); return 0; } }
     std::string v, c = ex.run(h, v); printf("@INFO replay %s: %s => %s  viol=[%s]\n", ex.name.c_str(), ex.hist_str(h).c_str(), c.c_str(), v.c_str()); return 0; }
